@@ -437,11 +437,11 @@ func sortStrings(a []string) {
 // probeExtras runs once, at the watched source's first recovery step after the server came
 // up: every further source that had leftovers at start-up is either held inside its own
 // recovery (at the gate) or has not begun it; either way a request for it must be
-// answered 503.  (A source that is never seen to begin its recovery within 3 s although
+// answered 503.  (A source that is never seen to begin its recovery within 10 s although
 // the watched one is already at work is reported only if it ANSWERS requests meanwhile.)
 func (m *zzRecMon) probeExtras() {
 	res := m.e.res
-	deadline := time.Now().Add(3 * time.Second)
+	deadline := time.Now().Add(10 * time.Second) // generous: only sources that never begin are of interest
 	for time.Now().Before(deadline) {
 		m.mu.Lock()
 		n := len(m.reached)
